@@ -16,7 +16,7 @@ ASSUMPTIONS = [
     "reference product: triple loop in the element type, compiled in the same TU with -ffp-contract=off",
     "shapes beyond the enumerated grid are represented by their residues modulo the vector width and unroll factors only",
 ]
-FORMS = {"matmul": 0, "assign": 1, "add": 2, "sub": 3, "mul": 4, "div": 5, "ctor": 6}
+FORMS = {"matmul": 0, "assign": 1, "add": 2, "sub": 3, "mul": 4, "div": 5, "ctor": 6, "matmul_te": 7, "matmul_et": 8, "matmul_ee": 9, "ctor_ee": 10}
 
 
 def configs(tier):
@@ -165,6 +165,10 @@ def cases(tier, cfg):
                         continue
                     out.append(Case(f"C01/{fn}[{t}|M={M},K={K},N={N}]", f"c01::mm<{ct},{M},{K},{N},0,{FORMS[fn]}>(fx);",
                                     route=f"lazy.{fn}", cost=cost))
+            # unevaluated operands (tensor/expression combinations): these overloads evaluate their operands and forward
+            if not variant and t in ("f32", "f64", "i32") and (M, K, N) in ((2, 3, 2), (3, 3, 3), (5, 3, W + 1), (2, 3, 2 * W + 1), (1, 3, W + 1), (5, 3, 1)):
+                for fn in ("matmul_te", "matmul_et", "matmul_ee", "ctor_ee"):
+                    out.append(Case(f"C01/{fn}[{t}|M={M},K={K},N={N}]", f"c01::mm<{ct},{M},{K},{N},0,{FORMS[fn]}>(fx);", route=f"exprarg.{fn}", cost=cost + 0.05))
             if N == 1 and not variant:
                 out.append(Case(f"C01/matvec[{t}|M={M},K={K}]", f"c01::mm<{ct},{M},{K},1,1,0>(fx);", route="matvec", cost=cost))
                 out.append(Case(f"C01/matvec_lazy[{t}|M={M},K={K}]", f"c01::mm<{ct},{M},{K},1,1,2>(fx);", route="matvec.lazy", cost=cost))
@@ -177,7 +181,7 @@ def cases(tier, cfg):
 
 def bounds(tier):
     return {"quick": "cube M,K,N<=4; M in {1..5,9..13,21} x K in {1,3} x N in {1..2W+1} u {kW-1,kW,kW+1:k=3,4,5} u {5W+2}; 8^3; M=2W+5 (four-row middle zone) x three (K,N); "
-                     "types f32,f64,i32 full, i64,c64 reduced; six ISAs",
+                     "tensor/expression operand combinations of matmul() and % on six shapes; types f32,f64,i32 full, i64,c64 reduced; six ISAs",
             "thorough": "cube <=6; M in {1..13,16,17,20,21,24,25} x K in {1,2,3,5,8} x N in 1..5W+2 (for M>5, M not in {12,13}: N <= 3W+2 and the boundaries of the later vectors); block corners; middle-zone shapes; "
                         "all six types; six ISAs; + C++17, O0, O3, ASan+UBSan, clang, matmul block-size macros on a thinned grid (M in {1,2,4,5,9,13,24}, K in {1,3}, "
                         "N <= W+1 and the boundaries kW-1..kW+2 of every later vector, the cube, the middle-zone shapes)"}[tier]
